@@ -32,6 +32,10 @@ PROFILES: dict[str, dict[str, Any]] = {
                          "finally": 5, "hcancel": 3, "sleep": 6}, max_len=5),
 }
 
+# level claimed per property (kept in step with tools/gen_manifest.py): "proof" once the property's
+# theorems over the kernel model are in lean/AnyioModel/Props/Cxx.lean
+LEVELS = {p: "translation_validation" for p in ("C01", "C02", "C03", "C04", "C05", "C06", "C07")}
+
 RULES = {
     "C01": "child spawned and group exited",
     "C02": "some task or body raised a non-cancellation exception inside a group",
@@ -106,7 +110,7 @@ def run_programs(prop: str, programs: list[dict], res: Result, *, eager_every: i
                                     "trace_head": [f"{a} -> {b}" for a, b in r.lines[:16]]})
 
 
-def run(prop: str, ctx: Ctx, quick: int = 350, thorough: int = 6000) -> Result:
+def run(prop: str, ctx: Ctx, quick: int = 1500, thorough: int = 25000) -> Result:
     res = Result(rule=f"random task/scope/group programs (profile {prop}) interpreted on the real AnyIO "
                       f"code; every API call and loop handle replayed in the Lean kernel model; a case "
                       f"is non-trivial if {RULES[prop]}; distinct = distinct event traces")
@@ -137,4 +141,4 @@ def main(prop: str, technique_note: str) -> int:
     from .common import check_main
 
     return check_main(prop, lambda c: run(prop, c), replay=lambda c, case: replay(prop, c, case),
-                      models=["kernel"], technique_note=technique_note)
+                      models=["kernel"], technique_note=technique_note, level=LEVELS.get(prop, "proof"))
